@@ -233,6 +233,7 @@ func (server *Server) serve() error {
 func (server *Server) tlsServe() error {
 	defer server.close()
 	l := server.tlsPortListener
+	tlsConfig := server.tlsConfig
 	for {
 		if l == nil {
 			break
@@ -242,13 +243,16 @@ func (server *Server) tlsServe() error {
 			return err
 		}
 
-		tlsConn := tls.Server(conn, server.tlsConfig)
-		if err := tlsConn.Handshake(); err != nil {
-			return err
-		}
-		tlsState := tlsConn.ConnectionState()
-
-		go server.receive(tlsConn, &tlsState)
+		go func() {
+			tlsConn := tls.Server(conn, tlsConfig)
+			if err := tlsConn.Handshake(); err != nil {
+				log.Error(err)
+				conn.Close()
+				return
+			}
+			tlsState := tlsConn.ConnectionState()
+			server.receive(tlsConn, &tlsState)
+		}()
 	}
 
 	return nil
